@@ -34,7 +34,7 @@ for p in props:
     })
 man = {
  "version": 1,
- "setup_cmd": "python3 tools/build.py --variant asan --quiet",
+ "setup_cmd": "python3 tools/build.py --variant asan --quiet && python3 tools/build.py --variant botan --quiet",
  "hooks": {"guard": "SOFTHSM_VERIF",
            "enable": "no hooks in /repo: every seam is reached at link/compile time of the verification build made by tools/build.py from /repo's working tree (--wrap of the libc calls the library imports, objcopy-renamed library copies as simulated processes, OpenSSL RAND_METHOD, PKCS#11 mutex callbacks, -fsanitize-coverage=trace-pc pre-emption points)",
            "baseline_off_cmd": "cmake -S /repo -B /repo/_build -G Ninja -DBUILD_TESTS=ON -DCMAKE_BUILD_TYPE=RelWithDebInfo && cmake --build /repo/_build && ctest --test-dir /repo/_build -j8 --timeout 900",
